@@ -126,6 +126,8 @@ class Model:
         self.echo_dirs = u()
         self.echo_args = {"x": u(), "i": u(), "c": u(), "l": u()}
         self.color_arg = u()
+        self.s_default = rng.random() < 0.5       # `s: Str = "dflt"`: hooks must also govern the default of an omitted field
+        self.seq_lists = rng.random() < 0.5       # engine cooked with coerce_list_concurrently=False
 
     def usages(self, enum=False):
         out = []
@@ -149,9 +151,10 @@ class Model:
             ["directive @%s(t: String, ts: [String]) on %s" % (n, LOCS) for n in DNAMES] + [
                 "scalar Str%s" % p(self.str_dirs),
                 "enum Color%s { %s }" % (p(self.color_dirs), " ".join(v + p(self.value_dirs[v]) for v in ENUM_VALUES)),
-                "input In%s { s: Str%s c: Color%s n: In%s }" % (p(self.in_dirs), p(self.in_fields["s"]), p(self.in_fields["c"]), p(self.in_fields["n"])),
+                "input In%s { s: Str%s%s c: Color%s n: In%s }" % (p(self.in_dirs), ' = "dflt"' if self.s_default else "", p(self.in_fields["s"]),
+                                                              p(self.in_fields["c"]), p(self.in_fields["n"])),
                 "type Obj%s { _t: Str%s }" % (p(self.obj_dirs), p(self.obj_t_dirs)),
-                "type Query { echo(x: Str%s, i: In%s, c: Color%s, l: [Str]%s): Str%s echoColor(c: Color%s): Color obj: Obj }" % (
+                "type Query { echo(x: Str%s, i: In%s, c: Color%s, l: [Str]%s): Str%s echoColor(c: Color%s): Color obj: Obj strs: [Str] }" % (
                     p(self.echo_args["x"]), p(self.echo_args["i"]), p(self.echo_args["c"]), p(self.echo_args["l"]), p(self.echo_dirs),
                     p(self.color_arg)),
             ])
@@ -162,28 +165,38 @@ def T(kind, dirs):
 
 
 class Fold:
-    """Expected traces per the documented pipeline."""
+    """Expected traces per the documented pipeline, and the expected number of invocations of every hook instance."""
 
     def __init__(self, m):
         self.m = m
+        self.calls = Counter()
+
+    def TT(self, kind, dirs):
+        for d in dirs:
+            self.calls[d[1]] += 1
+        return T(kind, dirs)
 
     def in_str(self, v):
-        return "in(%s)" % v + T("I", self.m.str_dirs)
+        return "in(%s)" % v + self.TT("I", self.m.str_dirs)
 
     def in_color(self, v):
-        return v + T("I", self.m.value_dirs[v]) + T("I", self.m.color_dirs)
+        return v + self.TT("I", self.m.value_dirs[v]) + self.TT("I", self.m.color_dirs)
 
     def in_obj(self, d):
         out = {}
-        for k, v in d.items():
+        items = list(d.items())
+        if self.m.s_default and "s" not in d:
+            items.append(("s", "dflt"))
+        for k, v in items:
             if k == "s":
                 val = self.in_str(v)
             elif k == "c":
                 val = self.in_color(v)
             else:
                 val = self.in_obj(v)
-            out[k] = tag_value(val, T("I", self.m.in_fields[k]))
-        return tag_value(out, T("I", self.m.in_dirs)) if self.m.in_dirs else out
+            out[k] = tag_value(val, self.TT("I", self.m.in_fields[k]))
+        t = self.TT("I", self.m.in_dirs)
+        return tag_value(out, t) if self.m.in_dirs else out
 
     def echo_args(self, args):
         out = {}
@@ -196,19 +209,26 @@ class Fold:
                 val = self.in_color(v)
             else:
                 val = [self.in_str(x) for x in v]
-            out[k] = tag_value(val, T("A", self.m.echo_args[k]))
+            out[k] = tag_value(val, self.TT("A", self.m.echo_args[k]))     # one call, even for a list value
         return out
 
     def echo(self, args, query_dirs):
         r = "R[%s]" % render(self.echo_args(args))
-        return "out(%s)" % (r + T("F", self.m.echo_dirs) + T("F", query_dirs) + T("O", self.m.str_dirs))
+        return "out(%s)" % (r + self.TT("F", self.m.echo_dirs) + self.TT("F", query_dirs) + self.TT("O", self.m.str_dirs))
 
     def echo_color(self, v):
-        received = tag_value(self.in_color(v), T("A", self.m.color_arg))
-        return received, v, T("O", self.m.color_dirs) + T("O", self.m.value_dirs[v])
+        received = tag_value(self.in_color(v), self.TT("A", self.m.color_arg))
+        return received, v, self.TT("O", self.m.color_dirs) + self.TT("O", self.m.value_dirs[v])
 
     def obj_t(self):
-        return "out(%s)" % (T("O", self.m.obj_dirs) + T("F", self.m.obj_t_dirs) + T("O", self.m.str_dirs))
+        return "out(%s)" % (self.TT("O", self.m.obj_dirs) + self.TT("F", self.m.obj_t_dirs) + self.TT("O", self.m.str_dirs))
+
+    def strs(self, items):
+        out = []
+        for x in items:
+            t = self.TT("O", self.m.str_dirs)      # type-level output hooks govern every item, null ones included
+            out.append(None if x is None else "out(%s)" % (x + t))
+        return out
 
 
 TAG_RE = re.compile(r"<[IAFO]:[a-z]+:(k\d+)(?:\+[^>]*)?>")
@@ -258,12 +278,10 @@ def lit(v):
 
 
 def gen_request(rng, m):
-    """Returns (query, variables, expected dict key->trace, expected hook call Counter inputs)."""
-    fold = Fold(m)
-    sels, vardefs, variables, expected, received = [], [], {}, {}, {}
-    expected_enum_out = []
+    """Returns (query, runs); each run = (variables, expected data, expected received, enum-out tags, expected call Counter)."""
+    sels, vardefs, variables = [], [], {}
+    plan = []           # ("echo", alias, args, query dirs) | ("color", alias, value) | ("obj", alias) | ("strs", alias, items)
     revar = []          # variables feeding directive arguments: re-bound for the second execution
-    pending_echo = []   # (alias, args, query-side directives) resolved against the variable values at fold time
     nv = [0]
 
     def spell(name, typ, v, as_enum=False):
@@ -275,7 +293,6 @@ def gen_request(rng, m):
             variables[vn] = v
             return "$" + vn
         if typ == "In" and isinstance(v, dict) and v and r < 0.7:
-            # nested variable inside the object literal
             k = rng.choice(sorted(v))
             nv[0] += 1
             vn = "v%d" % nv[0]
@@ -292,7 +309,7 @@ def gen_request(rng, m):
         return v if as_enum else lit(v)
 
     for j in range(rng.randint(1, 3)):
-        kind = rng.choice(["echo", "echo", "echo", "color", "obj"])
+        kind = rng.choice(["echo", "echo", "echo", "color", "obj", "strs"])
         alias = "f%d" % j
         if kind == "echo":
             args = {}
@@ -308,25 +325,21 @@ def gen_request(rng, m):
                              for k, v in args.items())
             call = "echo" + ("(%s)" % text if text else "")
             nodes = rng.choice([1, 1, 2])
-            qdirs_all = []
-            parts = []
+            qdirs_all, parts = [], []
             for _ in range(nodes):
-                qd = []
+                qd, texts = [], []
                 names = list(DNAMES)
                 rng.shuffle(names)
-                texts = []
                 for name in names[: rng.choice([0, 1, 2])]:
                     m.n += 1
                     inst = "k%d" % m.n
                     if rng.random() < 0.4:
-                        # list-valued directive argument with a variable nested in the literal
                         nv[0] += 1
                         vn = "v%d" % nv[0]
                         vardefs.append("$%s: String" % vn)
                         variables[vn] = rng.choice(["x", "y", "z"])
                         revar.append(vn)
-                        ts = ["p", ("var", vn)]
-                        qd.append((name, inst, ts))
+                        qd.append((name, inst, ["p", ("var", vn)]))
                         texts.append(' @%s(t: "%s", ts: ["p", $%s])' % (name, inst, vn))
                     else:
                         qd.append((name, inst))
@@ -334,36 +347,49 @@ def gen_request(rng, m):
                 qdirs_all.extend(qd)
                 parts.append("%s: %s%s" % (alias, call, "".join(texts)))
             sels.append(" ".join(parts))
-            pending_echo.append((alias, args, qdirs_all))
+            plan.append(("echo", alias, args, qdirs_all))
         elif kind == "color":
             v = rng.choice(ENUM_VALUES)
             sels.append("%s: echoColor(c: %s)" % (alias, spell("c", "Color", v, as_enum=True)))
-            rec, out, enum_out = fold.echo_color(v)
-            expected[alias] = out
-            received[alias] = rec
-            expected_enum_out.append(enum_out)
-        else:
+            plan.append(("color", alias, v))
+        elif kind == "obj":
             sels.append("%s: obj { _t }" % alias)
-            expected[alias] = {"_t": fold.obj_t()}
+            plan.append(("obj", alias))
+        else:
+            sels.append("%s: strs" % alias)
+            plan.append(("strs", alias, None))
     frag = ""
     if rng.random() < 0.25:
-        # the same fragment spread twice: its fields (and their query-side hooks) must still run once
         frag = " fragment Fr on Query { %s }" % " ".join(sels)
         sels = ["...Fr", "... on Query { ...Fr }"] if rng.random() < 0.5 else ["...Fr", "...Fr"]
     q = "query%s { %s }%s" % ("(" + ", ".join(vardefs) + ")" if vardefs else "", " ".join(sels), frag)
+    list_items = [rng.choice(["a", "b", None]) for _ in range(rng.randint(0, 4))]
+
     def expect_for(vals):
-        exp = dict(expected)
-        for alias, args, qd in pending_echo:
-            bound = [(d[0], d[1], [x if isinstance(x, str) else vals[x[1]] for x in d[2]]) if len(d) > 2 else d for d in qd]
-            exp[alias] = fold.echo(args, bound)
-        return exp
-    runs = [(variables, expect_for(variables))]
+        fold = Fold(m)
+        exp, rec, enum_out = {}, {}, []
+        for item in plan:
+            if item[0] == "echo":
+                _, alias, args, qd = item
+                bound = [(d[0], d[1], [x if isinstance(x, str) else vals[x[1]] for x in d[2]]) if len(d) > 2 else d for d in qd]
+                exp[alias] = fold.echo(args, bound)
+            elif item[0] == "color":
+                r_, out, eo = fold.echo_color(item[2])
+                exp[item[1]] = out
+                rec[item[1]] = r_
+                enum_out.append(eo)
+            elif item[0] == "obj":
+                exp[item[1]] = {"_t": fold.obj_t()}
+            else:
+                exp[item[1]] = fold.strs(list_items)
+        return exp, rec, "".join(enum_out), fold.calls
+    runs = [(variables,) + expect_for(variables)]
     if revar:
         v2 = dict(variables)
         for vn in revar:
             v2[vn] = v2[vn] + "2"
-        runs.append((v2, expect_for(v2)))
-    return q, runs, received, "".join(expected_enum_out)
+        runs.append((v2,) + expect_for(v2))
+    return q, runs, list_items
 
 
 async def build(m):
@@ -384,10 +410,14 @@ async def build(m):
 
     async def obj(parent, args, ctx, info):
         return {"_t": ""}
+
+    async def strs(parent, args, ctx, info):
+        return list(ctx["list_items"])
     Resolver("Query.echo", schema_name=name)(echo)
     Resolver("Query.echoColor", schema_name=name)(echo_color)
     Resolver("Query.obj", schema_name=name)(obj)
-    e = Engine(m.sdl(), schema_name=name)
+    Resolver("Query.strs", schema_name=name)(strs)
+    e = Engine(m.sdl(), schema_name=name, **({"coerce_list_concurrently": False} if m.seq_lists else {}))
     await e.cook()
     return e, name
 
@@ -403,21 +433,21 @@ async def run_case(ctx, rng, index):
         return
     try:
         for _ in range(REQS_PER_SCHEMA):
-            q, runs, received, enum_out = gen_request(rng, m)
-            for variables, expected in runs:
-                await run_one(ctx, m, e, sdl, q, variables, expected, received, enum_out)
+            q, runs, list_items = gen_request(rng, m)
+            for variables, expected, received, enum_out, calls in runs:
+                await run_one(ctx, m, e, sdl, q, variables, expected, received, enum_out, calls, list_items)
             st.sample({"sdl": sdl[:900], "query": q, "variables": runs[0][0], "expected": runs[0][1]}, limit=2)
         await null_spellings(ctx, rng, m, e, sdl)
     finally:
         boot.forget_schema(name)
 
 
-async def run_one(ctx, m, e, sdl, q, variables, expected, received, enum_out):
+async def run_one(ctx, m, e, sdl, q, variables, expected, received, enum_out, calls, list_items):
     st = ctx.stats
     if True:
         if True:
             case = {"sdl": sdl, "query": q, "variables": variables}
-            c = {"log": [], "resolver_calls": [], "received": {}, "enum_out": []}
+            c = {"log": [], "resolver_calls": [], "received": {}, "enum_out": [], "list_items": list_items}
             try:
                 resp = await e.execute(q, variables=variables, context=c)
             except Exception as ex:  # noqa
@@ -437,6 +467,8 @@ async def run_one(ctx, m, e, sdl, q, variables, expected, received, enum_out):
                 got = data.get(k)
                 if isinstance(exp, dict):
                     got, exp = (got or {}).get("_t"), exp["_t"]
+                if isinstance(exp, list):
+                    got, exp = repr(got), repr(exp)
                 if canon_trace(got, m.enum_ids) != canon_trace(exp, m.enum_ids):
                     ctx.violation("composition-trace-differs", "%s: engine=%s expected=%s" % (k, got, exp), case)
                     ok = False
@@ -445,20 +477,15 @@ async def run_one(ctx, m, e, sdl, q, variables, expected, received, enum_out):
                 if canon_trace(got, m.enum_ids) != canon_trace(exp, m.enum_ids):
                     ctx.violation("resolver-received-trace-differs", "%s: resolver got %s expected %s" % (k, got, exp), case)
                     ok = False
-            # exactly-once: hook calls per instance == tags expected in the traces (inputs of echoColor included)
-            exp_text = X.jdump(expected) + X.jdump(received) + enum_out
+            # exactly-once: every hook instance is invoked as often as the fold says (null values and list arguments included)
             if sorted(TAG_RE.findall(enum_out)) != sorted(TAG_RE.findall("".join(c["enum_out"]))):
                 ctx.violation("enum-output-hooks-differ", "ran %s expected %s" % (c["enum_out"], enum_out), case)
-            want = Counter(TAG_RE.findall(exp_text))
-            # list arguments: one argument hook call tags every item
+            want = calls
             have = Counter(inst for _, _, inst in c["log"])
-            if ok:
-                for inst, n in have.items():
-                    if n > want.get(inst, 0):
-                        ctx.violation("hook-invoked-too-often", "instance %s invoked %d times, %d tags expected" % (inst, n, want.get(inst, 0)), case)
-                for inst in want:
-                    if have.get(inst, 0) == 0:
-                        ctx.violation("hook-never-invoked", "instance %s" % inst, case)
+            if ok and have != want:
+                more = {k: (have[k], want.get(k, 0)) for k in have if have[k] > want.get(k, 0)}
+                less = {k: (have.get(k, 0), want[k]) for k in want if have.get(k, 0) < want[k]}
+                ctx.violation("hook-invocation-count", "invoked more often than governed values {inst: (ran, expected)}: %s; less often: %s" % (more, less), case)
             if sum(want.values()) >= 3:
                 st.distinct("nontrivial", (sdl, q, X.jdump(variables)))
 
@@ -492,7 +519,7 @@ async def null_spellings(ctx, rng, m, e, sdl):
     spellings.append(("nested-variables", "query($x: %s, $y: Str) { echo(i: %s, l: %s) }" % (kt, nested_obj, nested_lst), {"x": obj[k], "y": lst[i0]}))
     logs = []
     for label, q, variables in spellings:
-        c = {"log": [], "resolver_calls": [], "received": {}, "enum_out": []}
+        c = {"log": [], "resolver_calls": [], "received": {}, "enum_out": [], "list_items": []}
         case = {"sdl": sdl, "query": q, "variables": variables}
         try:
             resp = await e.execute(q, variables=variables, context=c)
